@@ -669,6 +669,8 @@ class ScriptRun:
                 elif it[0] == "env":
                     if it[1] == "release":
                         wmod.release()
+                    elif it[1] == "swap":
+                        wmod.swap()
                     await W.spin()
                     self.compare_pools("@" + it[1], "env")
                     self.worker_calls_paired("@" + it[1])
